@@ -10,32 +10,44 @@ From PV Require Import Base.Prelude Lib.Fifo Lib.QueueRTL Lib.QueueCL.
 Definition bit (f : Z) (i : Z) : bool := Z.testbit f i.
 
 (* flags: b0 rst | b1 want_enq | b2 want_deq | b3 enq_rdy known | b4 enq_rdy | b5 deq_rdy known | b6 deq_rdy
-          | b7 enq fired | b8 deq fired | b9 raw enq signal | b10 raw deq signal | b11 count known *)
+          | b7 enq fired | b8 deq fired | b9 raw enq signal | b10 raw deq signal | b11 count known
+          | b12 `out` is a peek-like data output (valid whenever deq_rdy/val is up) | b13 CL peek() called | b14 CL peek.rdy()
+          | b15 CL peek observed at all *)
 Definition obs_of (x : Z * Z * Z * Z) : obs :=
   let '(f, msg, out, cnt) := x in
   mkObs (bit f 0) (bit f 1) msg (bit f 2)
         (if bit f 3 then Some (bit f 4) else None) (if bit f 5 then Some (bit f 6) else None)
-        (bit f 7) (bit f 8) out (if bit f 11 then Some cnt else None).
+        (bit f 7) (bit f 8) out (if bit f 11 then Some cnt else None) (bit f 12).
 
 (* one observed cycle packed into ONE number (parsed much faster than nested tuples):
-   bits 0-11 flags | 12-19 msg | 20-27 out | 28-31 cnt | 32-35 a | 36-39 b | 40-43 c | 44-47 #regs | 48+8j.. regs[j] *)
+   bits 0-15 flags | 16-23 msg | 24-31 out | 32-35 cnt | 36-39 a | 40-43 b | 44-47 c | 48-51 #regs | 52+8j.. regs[j]
+   (CL queues: regs = [value returned by peek()]) *)
 Definition ccode : Type := Z.
 Definition fld (x lo w : Z) : Z := Z.land (Z.shiftr x lo) (Z.ones w).
 Definition cobs_of (x : ccode) : cobs :=
-  let f := fld x 0 12 in
-  mkCObs (obs_of (f, fld x 12 8, fld x 20 8, fld x 28 4)) (bit f 9) (bit f 10)
-         (fld x 32 4) (fld x 36 4) (fld x 40 4)
-         (map (fun j => fld x (48 + 8 * Z.of_nat j) 8) (seq 0 (Z.to_nat (fld x 44 4)))).
+  let f := fld x 0 16 in
+  mkCObs (obs_of (f, fld x 16 8, fld x 24 8, fld x 32 4)) (bit f 9) (bit f 10)
+         (fld x 36 4) (fld x 40 4) (fld x 44 4)
+         (map (fun j => fld x (52 + 8 * Z.of_nat j) 8) (seq 0 (Z.to_nat (fld x 48 4)))).
+Definition flags_of (x : ccode) : Z := fld x 0 16.
 
 Definition kind_of (z : Z) : qkind := if z =? 1 then Pipe else if z =? 2 then Bypass else Normal.
 
-(* the CL model replayed with the call order that was observed (enq_first) *)
-Fixpoint cl_first_bad (k : qkind) (n : nat) (enq_first : bool) (q : list Z) (i : nat) (h : list obs) : option nat :=
+(* the CL model replayed with the call order that was observed (enq_first); a peek() made at the start of the consumer's
+   block must be ready iff the deque it finds is non-empty and must show its oldest element *)
+Definition peek_ok (enq_first : bool) (q : list Z) (c : obs) (f : fout Z) (x : ccode) : bool :=
+  let fl := flags_of x in
+  let st := cl_at_consumer enq_first q (mkOffer (b_enq c) (b_msg c) (b_deq c)) f in
+  Bool.eqb (bit fl 14) (cl_peek_rdy st) &&
+  (if bit fl 13 then match cl_peek st with Some m => (fld x 52 8 =? m) | None => false end else true).
+Fixpoint cl_first_bad (k : qkind) (n : nat) (enq_first : bool) (q : list Z) (i : nat) (h : list ccode) : option nat :=
   match h with
   | [] => None
-  | c :: r =>
+  | x :: r =>
+      let c := co (cobs_of x) in
       let '(q', f) := cl_step k n enq_first q (mkOffer (b_enq c) (b_msg c) (b_deq c)) in
-      if obs_matches c f then cl_first_bad k n enq_first q' (S i) r else Some i
+      if obs_matches c f && (negb (bit (flags_of x) 15) || peek_ok enq_first q c f x)
+      then cl_first_bad k n enq_first q' (S i) r else Some i
   end.
 
 (* the model replays start from the register state that was observed in the first cycle of the history
@@ -74,8 +86,8 @@ Definition case_first_bad (c : Z * Z * Z * list ccode) : option nat :=
     else if mid =? 5 then o1_first_bad (p1_step k) o0 0%nat h
     else if mid =? 6 then o1_first_bad (v1_step k) o0 0%nat h
     else if mid =? 7 then vq_first_bad n (v_first h) 0%nat h
-    else if mid =? 8 then cl_first_bad k n true [] 0%nat ho
-    else if mid =? 9 then cl_first_bad k n false [] 0%nat ho
+    else if mid =? 8 then cl_first_bad k n true [] 0%nat hc
+    else if mid =? 9 then cl_first_bad k n false [] 0%nat hc
     else None in
   if mid =? 10 then stream_first_bad n [] 0%nat ho      (* chain: end-to-end streams only, n = bound on outstanding messages *)
   else min_opt spec model.
